@@ -258,9 +258,88 @@ def make_model(g, u, ntrait, mat0):
     return DenseAdditiveLinearGenomicModel(beta=beta, u_misc=None, u_a=u.copy(), trait=trait), beta, True, u, "plain additive model"
 
 
+# ---------------------------------------------------------------- one breeding value matrix, consulted several times
+BVM_READS = ["unscale", "unscale", "select_taxa", "select_taxa", "tmax/tmin", "copy", "deepcopy", "to_pandas", "attributes",
+             "delete_taxa", "reorder_taxa in place", "remove_taxa in place"]
+
+
+def reuse_reads(ctx, mon, model, pg, Z, gref, offset, ploidy, gr, gdev):
+    """A programme computes gebv(population) once and consults the *same* matrix object several times (limits check,
+    ranking, report of the selected).  Every read is a report of the members' breeding values: all of them are handed to
+    the monitor (list of (k, ntrait) arrays), whatever was read before from the same object."""
+    out = []
+    n = gref.shape[0]
+    src = "phased" if gr.random() < 0.6 else "ndarray"
+    try:
+        bv = model.gebv(pg if src == "phased" else Z)
+    except Exception as e:
+        ctx.raised("gebv(%s)" % src, e); return out
+    rows = numpy.arange(n)       # row of the object -> member of the population (in-place row operations are followed here)
+    ref = gref + offset
+    tol = mon.tol(ploidy, offset)
+    for i in range(int(gr.integers(2, 5))):
+        kind = BVM_READS[int(gr.integers(len(BVM_READS)))]
+        nn = len(rows)
+        if (kind == "to_pandas" and nn > 20000) or (kind in ("remove_taxa in place", "delete_taxa") and nn < 2):
+            kind = "unscale"
+        want = ref[rows]
+        meth = kind.split(" ")[0]
+        try:
+            if kind == "unscale":
+                val = bv.unscale()
+            elif kind == "select_taxa":
+                ix = gr.choice(nn, int(gr.integers(1, min(nn, 50) + 1)), replace=bool(gr.random() < 0.2))
+                val = bv.select_taxa(ix if gr.random() < 0.7 else ix.tolist()).unscale(); want = want[ix]
+            elif kind == "tmax/tmin":
+                val = numpy.stack([numpy.asarray(bv.tmax(unscale=True), dtype=float), numpy.asarray(bv.tmin(unscale=True), dtype=float)])
+                want = numpy.stack([want.max(0), want.min(0)]); meth = "tmax"
+            elif kind == "copy":
+                val = (bv.copy() if gr.random() < 0.5 else __import__("copy").copy(bv)).unscale()
+            elif kind == "deepcopy":
+                val = (bv.deepcopy() if gr.random() < 0.5 else __import__("copy").deepcopy(bv)).unscale()
+            elif kind == "to_pandas":
+                val = bv.to_pandas(unscale=True).iloc[:, -gref.shape[1]:].to_numpy(dtype=float)
+            elif kind == "attributes":
+                val = numpy.asarray(bv.mat, dtype=float) * numpy.asarray(bv.scale, dtype=float) + numpy.asarray(bv.location, dtype=float); meth = "mat"
+            elif kind == "delete_taxa":
+                drop = gr.choice(nn, int(gr.integers(1, min(nn - 1, 50) + 1)), replace=False)
+                val = bv.delete_taxa(drop).unscale(); want = numpy.delete(want, drop, axis=0)
+            elif kind == "reorder_taxa in place":
+                perm = gr.permutation(nn)
+                bv.reorder_taxa(perm); rows = rows[perm]; want = ref[rows]
+                val = bv.unscale()
+            else:   # the report is narrowed to the selected in place
+                drop = gr.choice(nn, int(gr.integers(1, min(nn - 1, 50) + 1)), replace=False)
+                bv.remove_taxa(drop if gr.random() < 0.7 else drop.tolist()); rows = numpy.delete(rows, drop); want = ref[rows]
+                val = bv.unscale()
+        except Exception as e:
+            ctx.raised("breeding value matrix read: " + kind, e)
+            if "in place" in kind:
+                break       # (the state of the object is unknown)
+            continue
+        label = "read %s of a breeding value matrix (%s)" % ("1" if i == 0 else "2+", kind)
+        ctx.sumnote("breeding value matrix reads: " + kind)
+        if i > 0:
+            ctx.hook("second or later reads of one breeding value matrix object")
+        val = numpy.asarray(val, dtype=float)
+        if val.shape == want.shape and numpy.all(numpy.isfinite(val)):
+            out.append(val)
+            if not numpy.all(numpy.abs(val - want) <= tol) and "un" not in gdev:
+                gdev["un"] = ("gebv", label, "%s.%s" % (O.defining_class(bv, meth), meth),
+                              "first read of a breeding value matrix object" if i == 0 else
+                              "second or later read of the same breeding value matrix object")
+                ctx.sumnote("%s is not definition + constant (judged as reported)" % label)
+        else:
+            ctx.sumnote("%s unusable (shape / non-finite)" % label)
+    return out
+
+
 # ---------------------------------------------------------------- observation of one generation
-def read_generation(ctx, mon, model, has_unscale, genotyper, pg, t, op, opsite, g, icls=None):
-    """Call the real usl/lsl/gebv/afreq on population ``pg`` through every input form and hand the numbers to the monitor."""
+def read_generation(ctx, mon, model, has_unscale, genotyper, pg, t, op, opsite, g, icls=None, twin=None, gr=None):
+    """Call the real usl/lsl/gebv/afreq on population ``pg`` through every input form and hand the numbers to the monitor.
+
+    twin: dict carrying the unphased matrix object of the population from one generation to the next (it then went through
+          the same in-place / copy / select operations as ``pg``); gr: generator of the object-reuse reads (own stream)."""
     mat = numpy.asarray(pg.mat)
     ploidy = int(mat.shape[0]); n = int(mat.shape[1])
     Zi = mat.astype(numpy.int64).sum(0)
@@ -326,6 +405,8 @@ def read_generation(ctx, mon, model, has_unscale, genotyper, pg, t, op, opsite, 
                 gdev["un"] = (meth, label); ctx.sumnote("%s is not definition + constant (judged as reported)" % label)
         else:
             ctx.sumnote("%s unusable (shape / non-finite)" % label)
+    if gr is not None and gr.random() < (0.6 if n <= 20000 else 0.25):
+        got += reuse_reads(ctx, mon, model, pg, Z, gref, offset, ploidy, gr, gdev)
     if got:
         gun = numpy.concatenate(got, axis=0)
     # input forms
@@ -335,11 +416,24 @@ def read_generation(ctx, mon, model, has_unscale, genotyper, pg, t, op, opsite, 
     kw = (lambda uns: {"unscale": uns}) if has_unscale else (lambda uns: {})
     views.append(("frequency", None, lambda uns: (model.usl_numpy(pex, ploidy, **kw(uns)), model.lsl_numpy(pex, ploidy, **kw(uns)))))
     views.append(("phased", pg, lambda uns: (model.usl(pg, **kw(uns)), model.lsl(pg, **kw(uns)))))
+    ug = twin.get("ug") if twin is not None else None
+    if ug is not None:   # the unphased object of the previous generation, taken through the same operation as ``pg``
+        try:
+            same = numpy.array_equal(numpy.asarray(ug.mat), Zi)
+        except Exception:
+            same = False
+        if same:
+            ctx.hook("unphased matrix objects carried through an operation instead of being genotyped afresh")
+        else:   # (what the operation did to the rows of that object is not this property's business)
+            ctx.sumnote("unphased twin object no longer holds the genotypes of the phased object (dropped, not judged)"); ug = None
     try:
-        ug = genotyper.genotype(pg)
+        if ug is None:
+            ug = genotyper.genotype(pg)
         views.append(("unphased", ug, lambda uns: (model.usl(ug, **kw(uns)), model.lsl(ug, **kw(uns)))))
     except Exception as e:
-        ctx.raised("DenseUnphasedGenotyping.genotype", e)
+        ctx.raised("DenseUnphasedGenotyping.genotype", e); ug = None
+    if twin is not None:
+        twin["ug"] = ug
     if ploidy == 2 and g.random() < 0.5:
         views.append(("ndarray", None, lambda uns: (model.usl(Z, **kw(uns)), model.lsl(Z, **kw(uns)))))   # default ploidy
     else:
